@@ -9,7 +9,7 @@ use crate::visit::veq;
 use serde_json::json;
 use tls_parser::*;
 
-pub const RULE: &str = "serializable values (ClientHello over all versions / session ids 0..32 / 0..32767 ciphers / 0..255 compressions / extension block None, empty, opaque up to 65535; ServerHello for 0300 (no extensions), 0301..0303; draft-18 hello; ClientKeyExchange Unknown/Dh/Ecdh; Finished; HelloRequest; ChangeCipherSpec; records of 1..n such messages) built as crate values, serialized by the crate, compared BYTE-EXACT with the independent reference encoding (which fixes every length field), parsed back (whole input consumed, value equals the documented normal form) and re-serialized; the same bytes demanded from every other public entry point (gen_tls_message, gen_tls_plaintext, the per-message gen_tls_* functions, TlsMessageHandshake::serialize) writing after a prefix already in the writer; values obtained by parsing generated records; SNI / max-fragment-length / supported-groups through gen_tls_extension(s) and the extension parsers; every unsupported message / extension variant must give GenError::NotYetImplemented. distinct_nontrivial = distinct (family, kind, presence flags, length classes) tuples";
+pub const RULE: &str = "serializable values (ClientHello over all versions / session ids 0..32 / 0..32767 ciphers / 0..255 compressions / extension block None, empty, opaque up to 65535, and every block size 65235..65535 x {0,1,2,3,255} compressions x cipher / session-id variants; ServerHello for 0300 (no extensions), 0301..0303; draft-18 hello; ClientKeyExchange Unknown/Dh/Ecdh; Finished; HelloRequest; ChangeCipherSpec; records of 1..n such messages) built as crate values, serialized by the crate, compared BYTE-EXACT with the independent reference encoding (which fixes every length field), parsed back (whole input consumed, value equals the documented normal form) and re-serialized; the same bytes demanded from every other public entry point (gen_tls_message, gen_tls_plaintext, the per-message gen_tls_* functions, TlsMessageHandshake::serialize) writing after a prefix already in the writer; values obtained by parsing generated records; SNI / max-fragment-length / supported-groups through gen_tls_extension(s) and the extension parsers; every unsupported message / extension variant must give GenError::NotYetImplemented. distinct_nontrivial = distinct (family, kind, presence flags, length classes) tuples";
 pub const ASSUMPTIONS: &[&str] = &[
     "values outside wire limits (session id > 32 bytes, > 32767 ciphers, random != 32 bytes, record payload > 16640 bytes, Some(empty) session id, SSLv3 ServerHello carrying extensions) are outside the quantifier and not generated",
     "normal form: absent extension block is written as 00 00 and reads back as Some(empty) (for SSLv3 ServerHello, which has no block, None and Some(empty) are both accepted); Dh/Ecdh ClientKeyExchange read back as Unknown(body)",
@@ -239,6 +239,24 @@ pub fn run(ctx: &mut Ctx) {
             ch.version = v as u16;
             msg_case(ctx, &AMsg::Hs(AHs::ClientHello(ch.clone())), "version");
             ctx.count("ch.versions");
+        }
+    });
+    // ------------------------------------------------ hellos whose extension block is within 300 bytes of the maximum, for
+    // every such size: with the rest of the body this puts 65536 + d bytes after each inner length field for
+    // small d (availability arithmetic in 16 bits), for 0..3 and 255 compression methods, 1..3 ciphers, session ids 0 / 32
+    ctx.floor("near-max.hellos", 4000);
+    ctx.sweep("near-max-extension-block", 301, |ctx, idx| {
+        let mut r = Rng::new(idx ^ 0x7EA2);
+        let e = 65535 - idx as usize;
+        let ext = r.bytes(e);
+        for comp_n in [0usize, 1, 2, 3, 255] {
+            for (ciph_n, sid_n) in [(1usize, 0usize), (2, 32), (3, 0)] {
+                let ch = ACh { version: 0x0303, random: r.bytes(32), sid: r.bytes(sid_n), ciphers: (0..ciph_n).map(|k| 0x1301 + k as u16).collect(), comp: vec![0; comp_n], ext: Some(ext.clone()) };
+                msg_case(ctx, &AMsg::Hs(AHs::ClientHello(ch)), "near-max");
+                ctx.count("near-max.hellos");
+            }
+            let sh = ASh { version: 0x0303, random: r.bytes(32), sid: r.bytes(if comp_n % 2 == 0 { 32 } else { 0 }), cipher: 0x1301, comp: comp_n as u8, ext: Some(ext.clone()) };
+            msg_case(ctx, &AMsg::Hs(AHs::ServerHello(sh)), "near-max");
         }
     });
     ctx.sweep("boundaries", 40, |ctx, idx| {
